@@ -278,7 +278,6 @@ static cfg_opt_t *cfg_getopt_secidx(cfg_t *cfg, const char *name,
 		long int i = -1;
 		char *secname;
 		size_t len;
-		cfg_t *parent = sec;
 
 		len = strcspn(name, "|=");
 		if (!index && name[len] == 0 /*len == strlen(name) */ )
@@ -326,10 +325,10 @@ static cfg_opt_t *cfg_getopt_secidx(cfg_t *cfg, const char *name,
 
 		/* compare as long: the accessor's index is an unsigned int */
 		sec = (i >= 0 && (unsigned long)i < cfg_opt_size(opt)) ? cfg_opt_getnsec(opt, (unsigned int)i) : NULL;
-		/* a free-form section that is asked itself for an option takes any
-		 * name as a key, also one that looks like a path */
+		/* a free-form section that is asked for an option takes any name
+		 * as a key, also one that looks like a path */
 		if (!sec && !is_set(CFGF_IGNORE_UNKNOWN, cfg->flags) &&
-		    !(!index && parent == cfg && is_set(CFGF_KEYSTRVAL, cfg->flags))) {
+		    !(!index && is_set(CFGF_KEYSTRVAL, cfg->flags))) {
 			if (opt && !is_set(CFGF_MULTI, opt->flags))
 				cfg_error(cfg, _("no such option '%s'"), secname);
 			else if (title)
@@ -356,9 +355,10 @@ static cfg_opt_t *cfg_getopt_secidx(cfg_t *cfg, const char *name,
 		opt = cfg_getopt_leaf(sec, name);
 
 		/* an unknown key is nothing unusual when a free-form section is
-		 * asked itself (the parser then adds the key); addressed by path
-		 * from outside it is an unknown option like any other */
-		if (!opt && !is_set(CFGF_IGNORE_UNKNOWN, cfg->flags) && !(is_set(CFGF_KEYSTRVAL, sec->flags) && sec == cfg))
+		 * asked (the parser then adds the key, whatever it looks like);
+		 * addressed by path from outside it is an unknown option like
+		 * any other */
+		if (!opt && !is_set(CFGF_IGNORE_UNKNOWN, cfg->flags) && !is_set(CFGF_KEYSTRVAL, cfg->flags))
 			cfg_error(cfg, _("no such option '%s'"), name);
 	}
 
